@@ -11,7 +11,9 @@ use proptest::prelude::*;
 use serde::{Deserialize, Serialize};
 use std::io::{BufRead, BufReader, Write};
 use std::os::unix::process::ExitStatusExt;
+use std::collections::BTreeMap;
 use std::path::Path;
+use std::sync::Mutex;
 use std::process::{Child, Command, Stdio};
 use std::task::Poll;
 use swimos_api::error::StoreError;
@@ -291,10 +293,30 @@ fn run_child(casefile: &Path, db: &Path, errfile: &Path, start: usize, kill_at: 
     out
 }
 
+/// Failures already observed in this process, by case. The moment at which an asynchronous SIGKILL
+/// lands is not reproducible, so a failing case may pass when it is executed again (while shrinking
+/// and when the runner re-evaluates the final case). A case that has failed once keeps failing with
+/// the recorded failures, which keeps the original detail in the report; shrunk variants are new
+/// cases and are judged on their own execution.
+static SEEN_FAILURES: Mutex<BTreeMap<u64, Vec<(String, String)>>> = Mutex::new(BTreeMap::new());
+
 pub fn check_kill(kc: &KillCase) -> Verdict {
+    let fp = vcommon::fnv1a(format!("{:?}", kc).as_bytes());
     let scratch = Scratch::new();
     let db = scratch.0.join("db");
-    kill_driver(kc, &scratch, || open_rocks(&db))
+    let mut v = kill_driver(kc, &scratch, || open_rocks(&db));
+    let mut seen = SEEN_FAILURES.lock().unwrap();
+    if v.failures.is_empty() {
+        if let Some(prev) = seen.get(&fp) {
+            for (sig, detail) in prev {
+                v.fail(sig.clone(), format!("{} (recorded from an earlier execution of this case; the kill timing is not reproducible)", detail));
+            }
+        }
+    } else if seen.len() < 10_000 {
+        seen.entry(fp)
+            .or_insert_with(|| v.failures.iter().map(|f| (f.sig.clone(), f.detail.clone())).collect());
+    }
+    v
 }
 
 fn kill_driver<P, F>(kc: &KillCase, scratch: &Scratch, open: F) -> Verdict
